@@ -10,8 +10,10 @@ import (
 	"os"
 	"os/exec"
 	"path/filepath"
+	"runtime"
 	"sort"
 	"strings"
+	"sync"
 	"time"
 
 	"github.com/ja7ad/otp/verifharness/ev"
@@ -384,6 +386,7 @@ type c19ChildFail struct {
 }
 
 type c19ChildResult struct {
+	StateKeys        []uint64
 	N, States, Trans int64
 	Core             int
 	Statuses         map[int]int
@@ -422,6 +425,13 @@ func c19InProc(r *ev.Run, fl []fault, base map[string]uint64) {
 		out.Statuses[st]++
 		dist[ev.H(obs)] = true
 	}
+	shard, shards := 0, 1
+	fmt.Sscanf(os.Getenv("VERIF_SHARD"), "%d %d", &shard, &shards)
+	if shards < 1 {
+		shards = 1
+	}
+	seq := 0
+	mine := func() bool { seq++; return seq%shards == shard }
 	if one := os.Getenv("VERIF_ONE"); one != "" {
 		// replay of a single sequence given by indices
 		c, ok := c19CaseOf(fl, one)
@@ -434,6 +444,9 @@ func c19InProc(r *ev.Run, fl []fault, base map[string]uint64) {
 			for pi := 0; pi < np; pi++ {
 				if len(f.Req.body()) > 100000 && pi%5 != i%5 {
 					continue // the few huge bodies meet a rotating fifth of the probes
+				}
+				if !mine() {
+					continue
 				}
 				run(c19Case{[]fault{f}, []int{pi}, (i+pi)%2 == 0}, fmt.Sprintf("1 %d %d %v", i, pi, (i+pi)%2 == 0))
 			}
@@ -459,6 +472,9 @@ func c19InProc(r *ev.Run, fl []fault, base map[string]uint64) {
 				if r.Thorough() && len(a.Req.body()) > 100000 && len(b.Req.body()) > 100000 {
 					continue
 				}
+				if !mine() {
+					continue
+				}
 				run(c19Case{[]fault{a, b}, []int{i + j, i + 2*j + 1}, true}, fmt.Sprintf("2 %d %d %d %d", i, j, i+j, i+2*j+1))
 			}
 			if len(out.Fails) >= 30 {
@@ -467,6 +483,9 @@ func c19InProc(r *ev.Run, fl []fault, base map[string]uint64) {
 		}
 	}
 	out.States = int64(len(states))
+	for k := range states {
+		out.StateKeys = append(out.StateKeys, ev.H(k))
+	}
 	for h := range dist {
 		out.Distinct = append(out.Distinct, h)
 	}
@@ -491,22 +510,96 @@ func c19CaseOf(fl []fault, idx string) (c19Case, bool) {
 // c19RunChild runs the in-process exploration in a child process and returns its result; if the
 // child died, it also returns the sequence that was in flight.
 func c19RunChild(r *ev.Run) (res c19ChildResult, crashed *c19Case, note string) {
-	return c19Spawn("")
+	n := runtime.GOMAXPROCS(0)
+	if n > 16 {
+		n = 16
+	}
+	if !r.Thorough() && n > 4 {
+		n = 4
+	}
+	type part struct {
+		res     c19ChildResult
+		crashed *c19Case
+		note    string
+	}
+	parts := make([]part, n)
+	var wg sync.WaitGroup
+	for k := 0; k < n; k++ {
+		wg.Add(1)
+		go func(k int) {
+			defer wg.Done()
+			parts[k].res, parts[k].crashed, parts[k].note = c19SpawnShard("", k, n)
+		}(k)
+	}
+	wg.Wait()
+	res.Statuses = map[int]int{}
+	states, dist := map[uint64]bool{}, map[uint64]bool{}
+	for _, p := range parts {
+		res.N += p.res.N
+		res.Trans += p.res.Trans
+		if p.res.Core > res.Core {
+			res.Core = p.res.Core
+		}
+		for st, c := range p.res.Statuses {
+			res.Statuses[st] += c
+		}
+		for _, k := range p.res.StateKeys {
+			states[k] = true
+		}
+		for _, h := range p.res.Distinct {
+			dist[h] = true
+		}
+		res.Fails = append(res.Fails, p.res.Fails...)
+		if p.crashed != nil && crashed == nil {
+			crashed, note = p.crashed, p.note
+		}
+	}
+	res.States = int64(len(states))
+	for h := range dist {
+		res.Distinct = append(res.Distinct, h)
+	}
+	sort.Slice(res.Distinct, func(i, j int) bool { return res.Distinct[i] < res.Distinct[j] })
+	return res, crashed, note
 }
 
 func c19Spawn(one string) (res c19ChildResult, crashed *c19Case, note string) {
+	return c19SpawnShard(one, 0, 1)
+}
+
+// c19Beat is called while the supervised child makes progress (its marker file changes).
+var c19Beat func()
+
+func c19SpawnShard(one string, shard, shards int) (res c19ChildResult, crashed *c19Case, note string) {
 	res.Statuses = map[int]int{}
 	self, _ := os.Executable()
-	marker := filepath.Join(os.Getenv("VERIF_WORK"), fmt.Sprintf("c19marker.%d", os.Getpid()))
+	marker := filepath.Join(os.Getenv("VERIF_WORK"), fmt.Sprintf("c19marker.%d.%d", os.Getpid(), shard))
 	if os.Getenv("VERIF_WORK") == "" {
-		marker = filepath.Join(os.TempDir(), fmt.Sprintf("c19marker.%d", os.Getpid()))
+		marker = filepath.Join(os.TempDir(), fmt.Sprintf("c19marker.%d.%d", os.Getpid(), shard))
 	}
 	defer os.Remove(marker)
 	cmd := exec.Command(self, "C19")
-	cmd.Env = append(os.Environ(), "VERIF_CHILD=inproc", "VERIF_MARKER="+marker, "VERIF_ONE="+one)
+	cmd.Env = append(os.Environ(), "VERIF_CHILD=inproc", "VERIF_MARKER="+marker, "VERIF_ONE="+one, fmt.Sprintf("VERIF_SHARD=%d %d", shard, shards), "GOMAXPROCS=2")
 	var errb strings.Builder
 	cmd.Stderr = &errb
+	stopBeat := make(chan struct{})
+	go func() {
+		last := ""
+		for {
+			select {
+			case <-stopBeat:
+				return
+			case <-time.After(2 * time.Second):
+			}
+			if mb, err := os.ReadFile(marker); err == nil && string(mb) != last {
+				last = string(mb)
+				if c19Beat != nil {
+					c19Beat()
+				}
+			}
+		}
+	}()
 	outp, err := cmd.Output()
+	close(stopBeat)
 	got := false
 	sc := bufio.NewScanner(strings.NewReader(string(outp)))
 	sc.Buffer(make([]byte, 1<<20), 1<<28)
@@ -529,6 +622,7 @@ func c19Spawn(one string) (res c19ChildResult, crashed *c19Case, note string) {
 }
 
 func c19(r *ev.Run) {
+	c19Beat = r.Beat
 	restInit()
 	base := nonPool(irt.Globals())
 	r.Scenario("fault-sequence", func(raw []byte) (string, string) { return runFaults(unjson[c19Case](raw), base) })
